@@ -32,6 +32,7 @@ def shards(tier, seed):
         out.append({"lane": "crash-line", "keys": n, "tier": tier, "seed": seed})
     for n in ([3] if tier == "quick" else [3, 200]):
         out.append({"lane": "crash-receive", "keys": n, "tier": tier, "seed": seed})
+    out += [{"lane": "miner", "shard": i, "tier": tier, "seed": seed} for i in range(3)]
     return out
 
 
@@ -394,6 +395,205 @@ def lane_crash_receive(a, spec):
     shutil.rmtree(work, ignore_errors=True)
 
 
+# ------------------------------------------------------------------------------ miner lane
+MINER_FAULTS = ["none", "none", "flush-raises", "broadcast-raises", "save-block-raises", "ctrl-c-during-broadcast",
+                "ctrl-c-during-flush", "ctrl-c-before-any-block", "set-state-raises"]
+
+
+def lane_miner(a, spec):
+    """the key hand-outs of the real miner front end (MinerWatcher.__call__, run in-process: worker processes, queues and
+    the networking thread are in-memory stand-ins) across a restart: the miner runs, finds 0-2 blocks, and ends -- by
+    Ctrl-C while idle, by Ctrl-C in the middle of handling a found block, or by an error from the store / the network
+    layer at that point.  Then wallet.json is loaded as by a restarted process and every remaining key is handed out: a key
+    that was paid by a block the node adopted must not be unused in the file nor handed out again."""
+    import collections
+    import shutil
+    import sqlite3
+    env.boot()
+    import skepticoin.mining as mining
+    import skepticoin.wallet as wm
+    from skepticoin.coinstate import CoinState
+    from skepticoin.consensus import construct_summary_hash
+    from skepticoin.scripts.utils import open_or_init_wallet
+    from skv import nodekit
+    mining.MAX_KNOWN_HASH_HEIGHT = -1
+    rng = random.Random("c15/miner/%d/%d" % (spec["seed"], spec["shard"]))
+    top = os.getcwd()
+
+    class MemQueue:
+        def __init__(self):
+            self.items = collections.deque()
+
+        def put(self, item):
+            self.items.append(item)
+
+        def get(self):
+            return self.items.popleft()
+
+    class NoProcess:
+        def __init__(self, *args, **kwargs):
+            pass
+
+        def start(self):
+            pass
+
+        def join(self):
+            pass
+
+    class Net:          # the networking thread's side, as far as the miner touches it
+        def __init__(self, coinstate, fault, at_block):
+            self.fault, self.at_block = fault, at_block
+            self.coinstate = coinstate
+            self.broadcast, self.saved = [], []
+            self.local_peer = self
+            self.chain_manager = self.network_manager = self.disk_interface = self
+
+        def trip(self, point):
+            if len(self.broadcast) + (point != "broadcast") < self.at_block and point != "broadcast":
+                return
+            if point == "broadcast" and len(self.broadcast) < self.at_block:
+                return
+            f = self.fault
+            if f == "flush-raises" and point == "flush":
+                raise sqlite3.OperationalError("database is locked")
+            if f == "save-block-raises" and point == "save":
+                raise sqlite3.OperationalError("disk I/O error")
+            if f == "broadcast-raises" and point == "broadcast":
+                raise RuntimeError("dictionary changed size during iteration")
+            if f == "set-state-raises" and point == "set":
+                raise RuntimeError("lock problem")
+            if f == "ctrl-c-during-broadcast" and point == "broadcast":
+                raise KeyboardInterrupt()
+            if f == "ctrl-c-during-flush" and point == "flush":
+                raise KeyboardInterrupt()
+
+        def get_state(self):
+            return self.coinstate, []
+
+        def set_coinstate(self, coinstate, validated=True):
+            self.trip("set")
+            self.coinstate = coinstate
+
+        def get_active_peers(self):
+            return []
+
+        def broadcast_block(self, block):
+            self.broadcast.append(block)
+            self.trip("broadcast")
+
+        def save_block(self, block):
+            self.trip("save")
+            self.saved.append(block)
+
+        def flush_blocks(self):
+            self.trip("flush")
+
+        def show_stats(self):
+            pass
+
+        def stop(self):
+            pass
+
+        def join(self):
+            pass
+
+    class Driver:       # plays worker process 0 on the watcher's receive queue
+        def __init__(self, watcher, net, stop_after):
+            self.watcher, self.net, self.stop_after = watcher, net, stop_after
+            self.nonce = rng.randrange(1 << 20)
+            self.waiting = False
+            self.tries = 0
+
+        def get(self):
+            self.tries += 1
+            if self.tries > 400000:
+                raise KeyboardInterrupt()
+            if not self.waiting:
+                if len(self.net.broadcast) >= self.stop_after:
+                    raise KeyboardInterrupt()           # the operator stops the miner while it is idle
+                self.waiting = True
+                self.nonce += 1
+                return (0, "request_scrypt_input", self.nonce)
+            _t, (summary, height) = self.watcher.send_queues[0].get()
+            self.waiting = False
+            return (0, "scrypt_output", construct_summary_hash(summary, height))
+
+    nruns = 6 if spec["tier"] == "quick" else 60
+    for j in range(nruns):
+        work = os.path.join(top, "miner-%d" % j)
+        os.makedirs(work, exist_ok=True)
+        os.chdir(work)
+        try:
+            fault = MINER_FAULTS[(j + spec["shard"] * 3) % len(MINER_FAULTS)]
+            nkeys = rng.choice([3, 4, 6])
+            stop_after = 0 if fault == "ctrl-c-before-any-block" else rng.choice([1, 1, 2])
+            at_block = rng.randint(1, max(1, stop_after))
+            wallet = wm.Wallet.empty()
+            nodekit.quiet(wallet.generate_keys, nkeys)
+            for _ in range(rng.choice([0, 1])):
+                wallet.get_annotated_public_key("receive")
+            wm.save_wallet(wallet)
+            all_keys = set(wallet.keypairs)
+            net = Net(CoinState.zero(), fault, at_block)
+            mining.Queue, mining.Process = MemQueue, NoProcess
+            mining.check_chain_dir = lambda: None
+            mining.read_chain_from_disk = lambda: net.coinstate
+            mining.start_networking_peer_in_background = lambda args, cs: net
+            mining.wait_for_fresh_chain = lambda thread, freshness: None
+            mining.open_or_init_wallet = lambda: wm.Wallet.load(open("wallet.json"))
+            argv = sys.argv
+            sys.argv = ["skepticoin-mine", "--quiet"]
+            w = {"lane": "miner", "fault": fault, "keys": nkeys, "stop_after_blocks": stop_after, "fault_at_block": at_block}
+            try:
+                watcher = mining.MinerWatcher()
+                watcher.recv_queue = Driver(watcher, net, stop_after)
+                try:
+                    nodekit.quiet(watcher)
+                except KeyboardInterrupt:
+                    pass
+                except SystemExit:
+                    pass
+            finally:
+                sys.argv = argv
+            a.n += 1
+            a.inc("miner_runs")
+            a.inc("miner_runs_fault_" + fault)
+            a.digests.add(digest("miner", fault, nkeys, stop_after, at_block))
+            # keys paid by blocks that are part of the chain state the node adopted
+            cs = net.coinstate
+            paid = set()
+            for blk in cs.block_by_hash.values():
+                if blk.height > 0:
+                    for o in blk.transactions[0].outputs:
+                        paid.add(o.public_key.public_key)
+            paid &= all_keys
+            a.inc("miner_blocks_adopted", len(cs.block_by_hash) - 1)
+            if paid:
+                a.inc("miner_runs_with_paid_key")
+            # the restarted process
+            try:
+                loaded = wm.Wallet.load(open("wallet.json"))
+            except Exception as e:
+                a.v("wallet-file-unreadable-after-miner-run", "wallet.json cannot be loaded after the miner ended (%s): %r" % (fault, e), w)
+                continue
+            relisted = paid & set(loaded.unused_public_keys)
+            if relisted:
+                a.v("paid-mining-key-unused-again-after-restart", "after the miner ended (%s) wallet.json lists as unused a key that "
+                    "received the reward of a block the node adopted" % fault, w)
+            handed = []
+            while loaded.unused_public_keys:
+                handed.append(loaded.get_annotated_public_key("after restart"))
+            a.inc("keys_handed_out_after_restart", len(handed))
+            if paid & set(handed) and not relisted:
+                a.v("paid-mining-key-handed-out-again-after-restart", "a key paid by an adopted block is handed out again (%s)" % fault, w)
+            if len(set(handed)) != len(handed):
+                a.v("key-handed-out-twice", "after the miner run a key is handed out twice by the reloaded wallet", w)
+        finally:
+            os.chdir(top)
+            shutil.rmtree(work, ignore_errors=True)
+    a.samples.append({"lane": "miner", "faults": sorted(set(MINER_FAULTS))})
+
+
 def run_shard(spec):
     a = Acc()
     if "replay" in spec:
@@ -409,6 +609,8 @@ def run_shard(spec):
         lane_crash_line(a, spec)
     elif lane == "crash-receive":
         lane_crash_receive(a, spec)
+    elif lane == "miner":
+        lane_miner(a, spec)
     return a.result()
 
 
@@ -426,7 +628,8 @@ def finalize(m, tier):
                    ("continued_with_reloaded_wallet", c.get("continued_with_reloaded_wallet", 0), 50),
                    ("balances_compared", c.get("balances_compared", 0), 100),
                    ("restores_with_other_annotation", c.get("restores_with_other_annotation", 0), 30),
-                   ("balance_after_restore", c.get("balance_after_restore", 0), 20), ("crash points landed", landed, 30),
+                   ("balance_after_restore", c.get("balance_after_restore", 0), 20),
+                   ("miner_runs", c.get("miner_runs", 0), 15), ("miner_runs_with_paid_key", c.get("miner_runs_with_paid_key", 0), 8), ("crash points landed", landed, 30),
                    ("crash_left_old_wallet", c.get("crash_left_old_wallet", 0), 10),
                    ("crash_left_new_wallet", c.get("crash_left_new_wallet", 0), 3),
                    ("address_printed_before_kill", c.get("address_printed_before_kill", 0), 1),
